@@ -134,8 +134,8 @@ end Mixer
 
 /-! ### renderer -/
 
-/-- Rust `f32::clamp(-1.0, 1.0)` -/
-def clampUnit (x : α) : α := clamp x (-(1.0 : α)) (1.0 : α)
+/-- `if x.is_nan() { 0.0 }` then Rust `f32::clamp(-1.0, 1.0)` (NaN never reaches the device) -/
+def clampUnit (x : α) : α := clamp (nanToZero x) (-(1.0 : α)) (1.0 : α)
 
 /-- the per-frame conversion at the end of `Renderer::process_chunk`: the `num_channels` device
     samples produced for one bus frame (`num_channels ≥ 1`). -/
